@@ -7,6 +7,7 @@ Driver ops of C19 part `Dest` (served by `gmodel`):
                                                      -> resolved createFile destinations below `out`,
                                                         sorted, distinct, `;`-separated, then ` dups=<n>`
   confine.dest.outfile <out comps> <0|1 is_dir> <hex fixed name> -> resolved path of the report file
+  confine.dest.profdata <tmp comps> <worker>         -> resolved path of `<tmp>/<worker>/grcov.profdata`
   confine.dest.gcov <hex gcno path|-> <hex ext|->    -> hex of the one component under the working dir | `panic`
 A resolved path is its hex-encoded names joined by `,` (`-` for the root itself).
 -/
@@ -84,6 +85,14 @@ def handleDestGcov : List String → String
 def handleDestOutFile : List String → String
   | [o, d, n] => match parseComps o, fromHex n with
     | some out, some name => showSegs (resolve (outFileDest out (d == "1") name))
+    | _, _ => "bad-op"
+  | _ => "bad-op"
+
+/-- `confine.dest.profdata <tmp comps> <worker>` -> resolved `-o` path of the profile merge, which is
+also the path removed afterwards -/
+def handleDestProfdata : List String → String
+  | [t, w] => match parseComps t, w.toNat? with
+    | some tmp, some i => showSegs (resolve (profdataPath (workerDir tmp i)))
     | _, _ => "bad-op"
   | _ => "bad-op"
 
